@@ -350,3 +350,46 @@ func c04oneSnapshot(c *Ctx) {
 	}
 	r.Check(bad == "", "SNAPSHOT", fkey(fn)+"/counts-in-one-hold", c.Pos(fn.Pos()), sprintf("%d comparisons, none combines separately locked member counts", n), "member counts read under separate holds of the gang lock are combined ("+bad+"): a pod moving from waiting to bound between the reads is counted twice and the gang is released one holder short")
 }
+
+// c08retryLooksUpAgain: the retry in podAssignCache.assign exists because the node entry can be
+// emptied, marked deleted and removed between the lookup and the add; the deleted mark is permanent,
+// so a retry on the SAME entry fails again and the pod's estimate is silently dropped.
+func c08retryLooksUpAgain(c *Ctx) {
+	r := c.R
+	r.Rule("RETRY(look up again): every AddOrUpdatePod call inside the retry loop of podAssignCache.assign is made on an entry that a getOrCreateNodeInfo call inside the loop can have produced (an entry looked up once before the loop stays deleted on the retry)")
+	fn := c.Fn(loadawarePkg, "podAssignCache", "assign")
+	if fn == nil {
+		return
+	}
+	n := 0
+	for _, cl := range an.Calls(fn, false) {
+		if an.ShortCallee(cl.Common()) != "AddOrUpdatePod" || cl.Common().IsInvoke() || len(cl.Common().Args) == 0 || !inLoopBody(cl.Block()) {
+			continue
+		}
+		n++
+		fresh, srcs := false, 0
+		for _, s := range cellSources(cl.Common().Args[0]) {
+			var call *ssa.Call
+			switch x := s.(type) {
+			case *ssa.Extract:
+				call, _ = x.Tuple.(*ssa.Call)
+			case *ssa.Call:
+				call = x
+			}
+			if call == nil || an.ShortCallee(call.Common()) != "getOrCreateNodeInfo" {
+				continue
+			}
+			srcs++
+			if inLoopBody(call.Block()) {
+				fresh = true
+			}
+		}
+		key := sprintf("%s/AddOrUpdatePod#%d/entry-looked-up-in-the-loop", fkey(fn), n)
+		if srcs == 0 {
+			r.Unknown("RETRY", key, c.InstrPos(cl), "cannot tell where the entry of this add comes from")
+			continue
+		}
+		r.Check(fresh, "RETRY", key, c.InstrPos(cl), "the entry is looked up inside the retry loop", "the entry is looked up once, before the loop: when a concurrent delete marks it deleted, the retry is made on the same dead entry, fails again, and the pod's estimate is missing from the node's load")
+	}
+	r.Floor("RETRY", "AddOrUpdatePod calls in the retry loop of assign", n, 1)
+}
